@@ -4,9 +4,10 @@ C18 — executable model of partitura/musicanalysis/performance_codec.py over ex
 What is mirrored (the code that exists, with the repairs fixes/C18-*.patch applied):
 
 * `get_unique_onset_idxs(x, eps=1e-6)`: stable sort (`argsort(kind="mergesort")`) of the keys, split
-  where two neighbours of the sorted sequence differ by more than `eps` (`groupsBy`).  The ENCODER
-  groups by the key `int(1e4 * onset)` (truncation toward zero, `encKey`), the DECODER by the raw
-  score onset.
+  where two neighbours of the sorted sequence differ by more than `eps` (`groupsBy`).  Encoder and
+  decoder both group by the key `int(1e4 * onset)` (truncation toward zero, `encKey`; the decoder
+  since repair C18-10 — before it grouped the raw onsets and disagreed with the encoder for onsets
+  less than 1e-4 beat apart).
 * `get_unique_seq`: group means + `last_time` (`max(offsets)`, or `max(onsets) + 1` when equal).
 * `monotonize_times`: keep the first point and every point strictly above the running maximum,
   interpolate linearly through the kept points (scipy `interp1d` linear with extrapolation:
@@ -18,7 +19,7 @@ What is mirrored (the code that exists, with the repairs fixes/C18-*.patch appli
 * `encode_tempo`: `eq_i = Σ_{j<i} bp_j·Δs_j + mean(performed onsets of group 0)`,
   `timing = eq_i − performed onset`, articulation RATIO `pd / (bp·sd)` (grace notes, `sd ≤ 0`:
   `bp / (bp·1)`); the stored parameter is `log2` of that ratio (transcendental: Props/C18Real).
-* `decode_time`: group by raw onset, `bp'_k = rescale(mean of the parameter columns of group k)`,
+* `decode_time`: same grouping, `bp'_k = rescale(mean of the parameter columns of group k)`,
   `eq'_k = Σ_{j<k} Δs_j·bp'_j`, onset `= eq'_k − timing`, duration `= 2^art · sd · bp'_k`
   (`2^art` enters as the column `ratio`), onsets shifted by their minimum.
 * velocity: `v / 127` and `clip(round(x·127), 1, 127)` (round half to even).
@@ -27,7 +28,8 @@ What is mirrored (the code that exists, with the repairs fixes/C18-*.patch appli
   For the two logarithmic ones the model works with `2^column` (supplied by the harness).
 * `to_matched_score`: the alignment's matches whose score id exists (a missing performance id is a
   `KeyError`), rows looked up by FIRST occurrence of the id, stable `lexsort` by
-  (onset_div, pitch), performed duration `max(pd, 0.075)` (the "hack", open finding F-C18-4);
+  (onset_div, pitch) (no sort and an empty table when nothing matches, repair C18-9), score duration
+  = `duration_beat` (repair C18-8), performed duration `max(pd, 0.075)` (the "hack", open finding F-C18-4);
   `get_matched_notes`: matches with both ids present, in alignment order.
 * `decode_performance(score, parameters, snote_ids)`: score rows in the order of `snote_ids`
   (repair C18-5), stable sort by (onset_div, pitch) applied to rows and parameters, ids zipped in
